@@ -23,4 +23,6 @@ MUTANTS=[
  ('recv-buffered-ring-wrap', 'p.getp = (p.getp + 1) % n\n\t\tp.len--\n\t}\n\tnotifyOps(p)\n\tp.mutex.Unlock()\n\tp.cond.Broadcast()\n\tif n == 0 {\n\t\tp.mutex.Lock()\n\t\t// The senders', 'p.getp = (p.getp + 1) % (n + 1)\n\t\tp.len--\n\t}\n\tnotifyOps(p)\n\tp.mutex.Unlock()\n\tp.cond.Broadcast()\n\tif n == 0 {\n\t\tp.mutex.Lock()\n\t\t// The senders'),
  ('revert-F7-wait', 'for p.getp == chanHasRecv && !p.close && p.sends > 0 {', 'for p.getp == chanHasRecv && !p.close {'),
  ('revert-F1', 'recvOK = p.getp == chanDelivered', 'recvOK = !p.close'),
+ # revert of F17
+ ('revert-nil-channel-recv-blocks', 'func ChanRecv(p *Chan, v unsafe.Pointer, eltSize int) (recvOK bool) {\n\tif p == nil {', 'func ChanRecv(p *Chan, v unsafe.Pointer, eltSize int) (recvOK bool) {\n\tif false {'),
 ]
